@@ -599,3 +599,55 @@ PROPS["C17"] = dict(
     trusted_base=COMMON_TRUSTED + ["naga's front end, validator and codespan rendering are oracles (parameters of the model)"],
     assumptions=["partial: a panic on a source naga accepts is generation's business (C09 documented panics / C01), not this property's"],
 )
+
+
+def extra_c07(pid, tier, seed, workdir, known, write_replay):
+    """vertex inputs through the REAL wgpu-core check_stage: every generated attribute is offered as InterfaceVar::vertex_attribute(format)"""
+    n = 1 if tier == "quick" else 12
+    streams = [("fixtures",), ("gen", "vertex", seed, 400 * n), ("gen", "general", seed, 150 * n)]
+    out, case_by_id = run_tool_on_streams([os.path.join(BIN, "oracle_wgpu")], streams, workdir, "oracle7")
+    items, counts, ncase = [], {}, 0
+    for line in out.split("\n"):
+        if not line.startswith("(oracle"):
+            continue
+        ncase += 1
+        t = parse_sexp(line)[0]
+        cid = sx(t[1])
+        for sec in t[3:]:
+            if isinstance(sec, list) and sec and sec[0] == "provided":
+                for ep in sec[1:]:
+                    if ep[2] != "vertex":
+                        continue
+                    for v in ep[3:]:
+                        if v == "ok":
+                            counts["vertex:ok"] = counts.get("vertex:ok", 0) + 1
+                            continue
+                        if isinstance(v, str):
+                            continue
+                        kind = sx(v[1])
+                        if kind == "Input":
+                            sig = f"oracle#Input-{sx(v[3])}"
+                            counts[sig] = counts.get(sig, 0) + 1
+                            items.append((sig, f"wgpu-core rejects vertex entry {sx(ep[1])}: location {v[2]}: {sx(v[4])[:200]}", cid, True))
+                        elif kind == "ShaderLocationClash":
+                            items.append(("oracle#ShaderLocationClash", f"vertex entry {sx(ep[1])}: two attributes at location {v[2]}", cid, True))
+    viol, kn = classify_and_report(pid, items, known, write_replay, case_by_id)
+    return {"oracle_cases": ncase, "oracle_verdicts": counts}, viol, kn, []
+
+
+PROPS["C07"] = dict(
+    lean_modules=["WgslVerif.Props.C07"],
+    theorems=["WgslVerif.C07_structs", "WgslVerif.C07_format", "WgslVerif.getVertexInputStructs_mem", "WgslVerif.locatedMembers_spec",
+              "WgslVerif.vertexInputOf_name", "WgslVerif.dedupByName_sub", "WgslVerif.vertexEntryStructs_length"],
+    streams=lambda tier, seed: (
+        [("fixtures",), ("gen", "vertex", seed, 500), ("gen", "general", seed, 200), ("gen", "entries", seed, 100)] if tier == "quick" else
+        [("fixtures",), ("gen", "vertex", seed, 12000), ("gen", "general", seed, 5000), ("gen", "entries", seed, 2000)]),
+    opts=q_opts([0, 17, 37], [0, 17, 37, 53, 22]),
+    extra=extra_c07,
+    rule="cases: fixtures + generator profiles vertex/general/entries (input structs with f32/i32/u32 scalars and vec2-4, arbitrary non-dense and unordered location numbers, builtins "
+         "interleaved, several structs per entry, structs shared by entries, bare builtin parameters between struct parameters) x representations / bytemuck / encase switches; each vertex entry is also "
+         "handed to the real wgpu-core check_stage with the generated attributes as inputs; non-trivial = at least one vertex input struct; distinct = distinct WGSL text",
+    trusted_base=COMMON_TRUSTED + ["WgpuVertex.formatInfo transcribes wgpu_types::VertexFormat (kind, width, components); validated through the real check_stage",
+                                   "offsets and stride are emitted symbolically (offset_of!, size_of) and evaluated by rustc (batch harness); wgpu's vertex-buffer rules (stride % 4, ...) are not modelled"],
+    assumptions=["partial: Nodup of the impl blocks and per-entry buffer order are evaluated on the real output, the kernel-checked part is C07_structs / C07_format / the buffer count (C14)"],
+)
